@@ -524,17 +524,40 @@ theorem chkReservedNames_none {b : BuildInput} :
   unfold chkReservedNames
   simp [List.findSome?_eq_none_iff]
 
+theorem chkOutputNames_none {nd : NodeD} : chkOutputNames nd = none ↔ ∀ o ∈ nd.outputs, LegalName o := by
+  unfold chkOutputNames LegalName
+  rw [List.findSome?_eq_none_iff]
+  refine forall_congr' fun o => forall_congr' fun _ => ?_
+  cases h3 : isIdentifier o <;> cases h4 : isKeyword o <;> simp
+
 theorem chkIdentifiers_none {b : BuildInput} :
     chkIdentifiers b = none ↔
+      ∀ nd ∈ b.nodes, (nd.kind ≠ .graph → LegalName nd.name) ∧ ∀ o ∈ nd.outputs, LegalName o := by
+  unfold chkIdentifiers
+  rw [List.findSome?_eq_none_iff]
+  refine forall_congr' fun nd => forall_congr' fun _ => ?_
+  by_cases hk : nd.kind = .graph
+  · simp [hk, chkOutputNames_none]
+  · cases h1 : isIdentifier nd.name <;> cases h2 : isKeyword nd.name <;>
+      simp [hk, LegalName, h1, h2, chkOutputNames_none]
+
+/-- the pre-repair check: graph nodes are skipped altogether, outputs included -/
+theorem chkIdentifiersSkipGraph_none {b : BuildInput} :
+    chkIdentifiersSkipGraph b = none ↔
       ∀ nd ∈ b.nodes, nd.kind ≠ .graph → LegalName nd.name ∧ ∀ o ∈ nd.outputs, LegalName o := by
-  unfold chkIdentifiers LegalName
+  unfold chkIdentifiersSkipGraph
   rw [List.findSome?_eq_none_iff]
   refine forall_congr' fun nd => forall_congr' fun _ => ?_
   by_cases hk : nd.kind = .graph
   · simp [hk]
-  · cases h1 : isIdentifier nd.name <;> cases h2 : isKeyword nd.name <;> simp [hk]
-    refine forall_congr' fun o => forall_congr' fun _ => ?_
-    cases h3 : isIdentifier o <;> cases h4 : isKeyword o <;> simp
+  · cases h1 : isIdentifier nd.name <;> cases h2 : isKeyword nd.name <;>
+      simp [hk, LegalName, h1, h2, chkOutputNames_none]
+
+/-- the repaired identifier check accepts no more than the pre-repair one -/
+theorem chkIdentifiersSkipGraph_of_chkIdentifiers {b : BuildInput} (h : chkIdentifiers b = none) :
+    chkIdentifiersSkipGraph b = none :=
+  chkIdentifiersSkipGraph_none.mpr fun nd hnd hk =>
+    ⟨(chkIdentifiers_none.mp h nd hnd).1 hk, (chkIdentifiers_none.mp h nd hnd).2⟩
 
 theorem chkNamespaceCollision_none {b : BuildInput} :
     chkNamespaceCollision b = none ↔
@@ -623,11 +646,28 @@ theorem mem_nxOrder {nodes : List NodeD} {es : List Edge} {e : Edge} : e ∈ nxO
     · exact .inr (List.mem_filter.mpr ⟨h, by simpa using hs⟩)
 
 theorem chkTypes_none {b : BuildInput} :
-    chkTypes b = none ↔ (b.strict = true → ∀ e ∈ graphEdges b, ∀ v ∈ e.values, TypedOK b e v) := by
+    chkTypes b = none ↔
+      (b.strict = true → ∀ e ∈ graphEdges b, e.kind ≠ .ordering → ∀ v ∈ e.values, TypedOK b e v) := by
   unfold chkTypes
   cases hs : b.strict
   · simp
+  · simp only [if_true, List.findSome?_eq_none_iff, mem_nxOrder, forall_const]
+    refine forall_congr' fun e => forall_congr' fun _ => ?_
+    by_cases hk : e.kind = .ordering
+    · simp [hk]
+    · simp [hk, chkTypesEdge_none]
+
+/-- the pre-repair check: typing was demanded of every edge carrying value names -/
+theorem chkTypesAllEdges_none {b : BuildInput} :
+    chkTypesAllEdges b = none ↔ (b.strict = true → ∀ e ∈ graphEdges b, ∀ v ∈ e.values, TypedOK b e v) := by
+  unfold chkTypesAllEdges
+  cases hs : b.strict
+  · simp
   · simp only [if_true, List.findSome?_eq_none_iff, mem_nxOrder, chkTypesEdge_none, forall_const]
+
+/-- the repair only ever accepts more: whatever the pre-repair type check passed, the repaired one passes -/
+theorem chkTypes_of_allEdges {b : BuildInput} (h : chkTypesAllEdges b = none) : chkTypes b = none :=
+  chkTypes_none.mpr fun hs e he _ => chkTypesAllEdges_none.mp h hs e he
 
 theorem defaults_core (cons : List NodeD) (p : Name) :
     (if (!(cons.filterMap fun n => (AL.get? n.sigDefaults p).map fun v => (v, n.name)).isEmpty &&
@@ -865,8 +905,9 @@ structure WellFormed (b : BuildInput) : Prop where
   graphName : '.' ∉ b.graphName.toList ∧ '/' ∉ b.graphName.toList
   /-- `END` is reserved -/
   notReserved : ∀ nd ∈ b.nodes, nd.name ≠ "END"
-  /-- names of non-graph nodes and of their outputs are identifiers and not keywords -/
-  legalNames : ∀ nd ∈ b.nodes, nd.kind ≠ .graph → LegalName nd.name ∧ ∀ o ∈ nd.outputs, LegalName o
+  /-- the name of every non-graph node, and every output name of EVERY node (graph nodes included),
+  is an identifier and not a keyword -/
+  legalNames : ∀ nd ∈ b.nodes, (nd.kind ≠ .graph → LegalName nd.name) ∧ ∀ o ∈ nd.outputs, LegalName o
   /-- if some node outputs the name of a graph node `g`, the LAST node doing so is `g` itself -/
   noCollision : ∀ g ∈ b.nodes, g.kind = .graph → ∀ l1 nd l2, b.nodes = l1 ++ nd :: l2 →
     g.name ∈ nd.outputs → (∀ m ∈ l2, g.name ∉ m.outputs) → nd.name = g.name
@@ -886,8 +927,10 @@ structure WellFormed (b : BuildInput) : Prop where
   noCacheOnGraph : ∀ g ∈ b.nodes, g.kind = .graph → g.cache = false
   /-- every awaited name is produced by some node -/
   waitForProduced : ∀ nd ∈ b.nodes, ∀ w ∈ nd.waitFor, ∃ p ∈ b.nodes, w ∈ p.outputs
-  /-- strict mode: every value on every edge of the built graph is annotated on both sides, compatibly -/
-  typed : b.strict = true → ∀ e ∈ graphEdges b, ∀ v ∈ e.values, TypedOK b e v
+  /-- strict mode: every value on every NON-ORDERING edge of the built graph (data edges; control edges
+  carry no values) is annotated on both sides, compatibly.  Ordering edges (emit → wait_for) are labelled
+  with the awaited name but no value reaches a parameter through them: nothing is demanded of them. -/
+  typed : b.strict = true → ∀ e ∈ graphEdges b, e.kind ≠ .ordering → ∀ v ∈ e.values, TypedOK b e v
 
 /-- the only way to obtain a runnable graph value: a description together with the evidence that
 the constructor accepted it -/
@@ -954,6 +997,26 @@ theorem buildGraph_ok_iff {b : BuildInput} : buildGraph b = .ok () ↔ WellForme
     obtain ⟨l1, nd, l2, heq, hnm, ho, hl2⟩ := lastSource_eq_some_iff.mp hl
     exact hnm ▸ w.noCollision g hg hk l1 nd l2 heq ho hl2
 
+/-! ## the two pre-repair constructors kept for the negative witnesses -/
+
+/-- the repair "strict typing skips ordering edges" only ever accepts more -/
+theorem buildGraph_ok_of_allEdges {b : BuildInput} (h : buildGraphAllEdges b = .ok ()) : buildGraph b = .ok () := by
+  unfold buildGraphAllEdges at h
+  unfold buildGraph
+  rw [runChecks_ok] at h ⊢
+  simp only [checksAllEdges, checks, List.mem_cons, List.not_mem_nil, or_false, forall_eq_or_imp, forall_eq] at h ⊢
+  obtain ⟨h1, h2, h3, h4, h5, h6, h7, h8, h9, h10, h11, h12, h13, h14, h15⟩ := h
+  exact ⟨h1, h2, h3, h4, h5, h6, h7, h8, h9, h10, h11, h12, h13, h14, chkTypes_of_allEdges h15⟩
+
+/-- the repair "output names of a nested graph are validated" only ever accepts less -/
+theorem buildGraphSkipGraph_ok_of {b : BuildInput} (h : buildGraph b = .ok ()) : buildGraphSkipGraph b = .ok () := by
+  unfold buildGraph at h
+  unfold buildGraphSkipGraph
+  rw [runChecks_ok] at h ⊢
+  simp only [checksSkipGraph, checks, List.mem_cons, List.not_mem_nil, or_false, forall_eq_or_imp, forall_eq] at h ⊢
+  obtain ⟨h1, h2, h3, h4, h5, h6, h7, h8, h9, h10, h11, h12, h13, h14, h15⟩ := h
+  exact ⟨h1, h2, h3, h4, h5, chkIdentifiersSkipGraph_of_chkIdentifiers h6, h7, h8, h9, h10, h11, h12, h13, h14, h15⟩
+
 /-! ## every error of a check is a configuration error -/
 
 theorem chkDuplicateNodes_cfg {b e} (h : chkDuplicateNodes b = some e) : e.isConfig = true := by
@@ -1004,21 +1067,25 @@ theorem chkReservedNames_cfg {b e} (h : chkReservedNames b = some e) : e.isConfi
   · cases h'; rfl
   · cases h'
 
+theorem chkOutputNames_cfg {nd e} (h : chkOutputNames nd = some e) : e.isConfig = true := by
+  unfold chkOutputNames at h
+  obtain ⟨_, _, h''⟩ := List.exists_of_findSome?_eq_some h
+  split at h''
+  · cases h''; rfl
+  · split at h''
+    · cases h''; rfl
+    · cases h''
+
 theorem chkIdentifiers_cfg {b e} (h : chkIdentifiers b = some e) : e.isConfig = true := by
   unfold chkIdentifiers at h
   obtain ⟨_, _, h'⟩ := List.exists_of_findSome?_eq_some h
   split at h'
-  · cases h'
+  · exact chkOutputNames_cfg h'
   · split at h'
     · cases h'; rfl
     · split at h'
       · cases h'; rfl
-      · obtain ⟨_, _, h''⟩ := List.exists_of_findSome?_eq_some h'
-        split at h''
-        · cases h''; rfl
-        · split at h''
-          · cases h''; rfl
-          · cases h''
+      · exact chkOutputNames_cfg h'
 
 theorem chkNamespaceCollision_cfg {b e} (h : chkNamespaceCollision b = some e) : e.isConfig = true := by
   unfold chkNamespaceCollision at h
@@ -1107,7 +1174,10 @@ theorem chkTypesEdge_cfg {b ed e} (h : chkTypesEdge b ed = some e) : e.isConfig 
 theorem chkTypes_cfg {b e} (h : chkTypes b = some e) : e.isConfig = true := by
   unfold chkTypes at h
   split at h
-  · obtain ⟨_, _, h'⟩ := List.exists_of_findSome?_eq_some h; exact chkTypesEdge_cfg h'
+  · obtain ⟨_, _, h'⟩ := List.exists_of_findSome?_eq_some h
+    split at h'
+    · cases h'
+    · exact chkTypesEdge_cfg h'
   · cases h
 
 theorem checks_cfg {b : BuildInput} {e : BuildErr} {c} (hc : c ∈ checks) (h : c b = some e) :
@@ -1206,6 +1276,28 @@ theorem dataEdges_hasVal {nodes : List NodeD} {nd : NodeD} (hnd : nd ∈ nodes) 
     nodes [] nd hnd
   exact this p hp s hs
 
+theorem dstep_kind {all n es p} (h : ∀ e ∈ es, e.kind = .data) : ∀ e ∈ dstep all n es p, e.kind = .data := by
+  unfold dstep
+  split
+  · exact h
+  · split
+    · intro e he
+      obtain ⟨e', he', rfl⟩ := List.mem_map.mp he
+      split
+      · exact h e' he'
+      · exact h e' he'
+    · intro e he
+      rcases List.mem_append.mp he with he | he
+      · exact h e he
+      · rw [List.mem_singleton.mp he]
+
+/-- `_add_data_edges` creates data edges only -/
+theorem dataEdges_kind {nodes : List NodeD} : ∀ e ∈ dataEdges nodes, e.kind = .data := by
+  rw [dataEdges_eq]
+  refine foldl_pres (P := fun es : List Edge => ∀ e ∈ es, e.kind = EdgeKind.data) (fun acc n hacc => ?_) nodes []
+    (fun _ h => by cases h)
+  exact foldl_pres (P := fun es : List Edge => ∀ e ∈ es, e.kind = EdgeKind.data) (fun _ _ h => dstep_kind h) n.inputs acc hacc
+
 theorem mem_addControlEdges {nodes : List NodeD} {es : List Edge} {e : Edge} (h : e ∈ es) :
     e ∈ addControlEdges nodes es := by
   unfold addControlEdges
@@ -1228,14 +1320,14 @@ theorem mem_addOrderingEdges {nodes : List NodeD} {es : List Edge} {e : Edge} (h
     · exact hacc
     · exact List.mem_append_left _ hacc
 
-/-- auto-inference mode: a parameter `p` of `nd` whose first producer is `s` rides on an edge `s → nd` -/
+/-- auto-inference mode: a parameter `p` of `nd` whose first producer is `s` rides on a DATA edge `s → nd` -/
 theorem graphEdges_hasVal_auto {b : BuildInput} (hx : b.explicitEdges = none) {nd : NodeD}
     (hnd : nd ∈ b.nodes) {p s : Name} (hp : p ∈ nd.inputs) (hs : firstSource b.nodes p = some s) :
-    HasVal (graphEdges b) s nd.name p := by
+    ∃ e ∈ graphEdges b, e.kind = .data ∧ e.src = s ∧ e.dst = nd.name ∧ p ∈ e.values := by
   unfold graphEdges
   rw [hx]
   obtain ⟨e, he, h⟩ := dataEdges_hasVal hnd hp hs
-  exact ⟨e, mem_addOrderingEdges (mem_addControlEdges he), h⟩
+  exact ⟨e, mem_addOrderingEdges (mem_addControlEdges he), dataEdges_kind e he, h⟩
 
 /-! ## small facts used by the flaw theorems -/
 
@@ -1280,7 +1372,8 @@ theorem buildGraphOld_eq {b : BuildInput} (h : chkOldRawError b = none) : buildG
 /-! ## evaluating concrete strict-mode graphs
 
 `compat` is defined by well-founded recursion and does not reduce under `decide`.  For concrete
-graphs whose annotations are plain classes, `chkTypesSimple` (identical to `chkTypes` except that it
+graphs whose annotations are plain classes, `chkTypesSimple` (identical to `chkTypes` — ordering edges
+skipped — except that it
 accepts a pair of annotations only when both are the same plain class) is kernel-evaluable and
 implies `chkTypes`. -/
 
@@ -1303,15 +1396,19 @@ def chkTypesEdgeSimple (b : BuildInput) (e : Edge) : Option BuildErr :=
       | some ti => if clsEq to ti then none else some (.typeMismatch e.src e.dst v)
 
 def chkTypesSimple (b : BuildInput) : Option BuildErr :=
-  if b.strict then (nxOrder b.nodes (graphEdges b)).findSome? (chkTypesEdgeSimple b) else none
+  if b.strict then
+    (nxOrder b.nodes (graphEdges b)).findSome? fun e =>
+      if e.kind == .ordering then none else chkTypesEdgeSimple b e
+  else none
 
 theorem chkTypes_of_simple {b : BuildInput} (h : chkTypesSimple b = none) : chkTypes b = none := by
   rw [chkTypes_none]
-  intro hs e he v hv
+  intro hs e he hk v hv
   unfold chkTypesSimple at h
   rw [hs] at h
   simp only [if_true, List.findSome?_eq_none_iff, mem_nxOrder] at h
   have h' := h e he
+  rw [if_neg (by simpa using hk)] at h'
   unfold chkTypesEdgeSimple at h'
   rw [List.findSome?_eq_none_iff] at h'
   have h'' := h' v hv
